@@ -16,6 +16,7 @@ ratio of the pair reaches 7.0 / 4.5; `adjusted` only on success of make_readable
 written (into the rule's own declaration or into the referenced custom property) and the colour reported being exactly the
 API's colour; `needs attention`: listed with the rule's selector, nothing written.
 """
+import ast
 import z3
 from vf.contracts import Contract
 from vf.values import *
@@ -175,8 +176,11 @@ def register_c08(reg):
         props={k: (['C08', 'C09'] if k in ('adjusted_written_and_reported', 'attention_listed_untouched', 'readable_untouched') else ['C08'])
                for k in ('counted_exactly_once', 'readable_means_target', 'adjusted_is_api_success', 'adjusted_written_and_reported', 'attention_listed_untouched', 'readable_untouched')}
               | {'pre:update_decl_value': ['C08'], 'pre:get_wcag_level': ['C08'], 'pre:calculate_contrast_ratio': ['C08']},
-        opts={'match_objects': True},
-        note='extracted block: see vf/extract.py'))
+        opts={'match_objects': True, 'local_roles': ['color_decl', 'bg_decl', 'node', 'modified'],
+              # role 1 is the name the block's own `if` tests (the rule's text-colour declaration), role 4 the flag the block returns
+              'role_check': lambda fn, al: isinstance(fn.body[0], ast.If) and isinstance(fn.body[0].test, ast.Name) and fn.body[0].test.id == al['color_decl']
+                                           and isinstance(fn.body[-1], ast.Return) and ast.unparse(fn.body[-1].value) == f"({al['modified']},)"},
+        note='extracted block: see vf/extract.py; the four outer locals the block reads are named by role (order of first use)'))
 
 
     # ------------------------------------------------------------------ the at-rule block: descent into @media / @supports
@@ -220,4 +224,5 @@ def register_c08(reg):
         pre=None, setup=setup_at, result='unk', pure=False, raises=('Exception?',),
         posts={'settings_forwarded': settings_forwarded, 'descends_only_into_media_or_supports': descends_exactly_when_media_or_supports, 'rebuilt_after_descent': rebuilt_after_descent},
         props={k: ['C08', 'C09'] for k in ('settings_forwarded', 'descends_only_into_media_or_supports', 'rebuilt_after_descent')},
+        opts={'local_roles': ['node']},
         note='extracted block: see vf/extract.py'))
